@@ -1,7 +1,7 @@
 ---------------------------- MODULE NegotiatePicks ----------------------------
 (* The cases NegotiateGen expands.  This file is a SAMPLE: checks/c08.py overwrites it (in the
    scratch copy of the spec tree only) with the picks of the covering suites it computes. *)
-Picks == { <<1,1,5,2,1,3,1,1,1,6,5,2,1,1,2,1,1,1>>,
-           <<2,2,1,1,1,1,1,4,2,4,1,1,1,1,1,1,1,1>>,
-           <<1,1,1,1,2,6,1,2,2,3,1,1,1,1,1,1,1,1>> }
+Picks == { <<1,1,5,2,1,3,1,1,1,6,5,2,1,1,2,1,1,1,1>>,
+           <<2,2,1,1,1,1,1,4,2,4,1,1,1,1,1,1,1,1,1>>,
+           <<1,1,1,1,2,6,1,2,2,3,1,1,1,1,1,1,1,1,2>> }
 =============================================================================
